@@ -22,7 +22,6 @@ class UnitIndex:
                 u.tid((k, i))
         for j in range(len(u.ifaces)):
             u.tid(("i", j))
-        G.MOD_OF[0] = G.MOD + "/" + prog.name
         self.by_str = {G.type_string(u, td): n for td, n in u.tids.items()}
         self.item_by_id = {it["id"]: it for it in u.items}
 
@@ -31,9 +30,17 @@ class UnitIndex:
 
 
 def unit_of_message(prog, msg):
-    m = re.search(r"\b(?:S|I)(\d+)_\d+\b", msg) or re.search(r"\bInit(\d+)\b", msg)
+    """which unit of the program a diagnostic talks about (by the names it mentions)"""
+    m = re.search(r"\bInit(\d+)\b", msg)
     if m:
         return int(m.group(1))
+    for u in prog.units:
+        for st in u.structs:
+            if "%s.%s" % (prog.path(st["pkg"]), st["name"]) in msg:
+                return u.uid
+        for d in u.ifaces:
+            if "%s.%s" % (prog.path(d["pkg"]), d["name"]) in msg:
+                return u.uid
     m = re.search(r"\bProv(\d+)\b", msg)
     if m:
         return int(m.group(1)) // 1000
